@@ -59,6 +59,7 @@ static std::vector<Op> buildAlphabet(const std::string& name, Limits& L, const s
         A.push_back(opRegSubmit(0, "0", L)); A.push_back(opRegSubmit(0, "n+1", L)); A.push_back(opRegMut(0, "ch")); A.push_back(opRegExt(0, L)); A.push_back(opRegCopy(1, 0));
         A.push_back(opRegSubmitTemp(0, "app", L)); A.push_back(opRegSubmitTemp(0, "n+1", L)); A.push_back(opRegSubmitTemp(1, "0", L));
         A.push_back(opRegMut(0, "rename")); A.push_back(opRegMut(0, "rename_held")); A.push_back(opRegMut(0, "rename_set")); A.push_back(opRegMut(0, "rename_after_lookup")); A.push_back(opRegMut(1, "rename"));   // the caller renames a point of its own frame (directly / through a reference taken before an indexed set)
+        for (auto wh : {"asis", "newpts", "newan"}) A.push_back(opTakeEditPutBack(0, 0, wh, 1)); A.push_back(opTakeEditPutBack(1, 1, "newpts", 2));   // read-modify-write of one slot through a copy of the stored frame
         A.push_back(opRegHold(0)); A.push_back(opRegMutHeld(0));
         A.push_back(opStoredAddSubframe(0)); A.push_back(opStoredAddSubframe(1)); A.push_back(opRegAddSubframe(0));
         for (size_t f : {0, 1, 2}) { A.push_back(opEditStored(f, "px")); }
@@ -98,8 +99,8 @@ static std::vector<Op> buildAlphabet(const std::string& name, Limits& L, const s
         A.push_back(opPoint("A", L)); A.push_back(opRate("POINT", 100.f)); A.push_back(opFrame("ok", "app", 0, L));
     } else if (name == "lookup") {  // C11: containers of every size 0..N
         L.maxFrames = thorough ? 3 : 2; L.maxPoints = thorough ? 3 : 2; L.maxChans = 2; L.maxGroups = 5; L.noColumnsOnGaps = true;
-        for (auto n : {"A", "B", "A ", "b", "  ", "T\t", "a b", "S:A", "AB"}) A.push_back(opPoint(n, L));    // "S:A" / "AB": a name that ends / begins like another one
-        for (auto n : {"a", "a ", "B", " ", "s:a"}) A.push_back(opAnalog(n, L));
+        for (auto n : {"A", "B", "A ", "b", "  ", "T\t", "a b", "S:A", "AB", "LShoulder_Marker", "RShoulder_Marker"}) A.push_back(opPoint(n, L));    // "S:A" / "AB": a name that ends / begins like another one; two long names one character apart
+        for (auto n : {"a", "a ", "B", " ", "s:a", "EMG1_Left_Channel", "EMG1_Leff_Channel"}) A.push_back(opAnalog(n, L));
         A.push_back(opRate("POINT", 100.f)); A.push_back(opRate("ANALOG", 200.f)); A.push_back(opRate("ANALOG", 100.f));
         A.push_back(opFrame("ok", "app", 0, L)); A.push_back(opFrame("ok", "n+1", 2, L));
         A.push_back(opParam("NEWG", "X", pv("i3"), "d0", false, L)); A.push_back(opParam("NEWG", "Y", pv("s2"), "d1", false, L)); A.push_back(opParam("G2", "x", pv("f1"), "d0", true, L));
